@@ -519,6 +519,18 @@ for _p in ("C01", "C04", "C07", "C11"):
     CLAIMED[_p]["text"] += _R8_WBRIDGE2
 
 
+CLAIMED["C02"]["text"] += (" Round 8 (gapd): the cross-type campaign runs every file under FOUR settings of the two normalisation switches (on/on, off/off and the two in which "
+    "SFC_SET_NORM_FLOAT and SFC_SET_NORM_DOUBLE DIFFER on one handle) and issues state-reading commands (the four SFC_CALC_*, SFC_GET_NORM_*, SFC_GET_SIGNAL_MAX / MAX_ALL_CHANNELS, "
+    "SFC_GET_CLIPPING, info) between the reads of every plan; Sf.CrossTypeQ (queries are transparent: SfProps/C02Query.lean switchOkQ_iff_strip, calc_keeps_normalisation, "
+    "decode_own_switch_only). Repaired: SFC_SET_CLIPPING ignored by the int readers of the portable IEEE path (KF-C02-REPLACE-CLIP-READ).")
+CLAIMED["C20"]["text"] += (" Round 8 (gapd): the portable IEEE path through EVERY caller type x file byte order x direction with calls longer than two staging passes (vlib/ieeecross.py; "
+    "SfProps/C20Cross.lean replace_write_cross_f32/_f64, replace_read_cross_f32/_f64 = Sf.Enc.encode / decode) -- found and repaired: replace_read_d2f copied doubles into the caller's float "
+    "buffer (KF-C20-REPLACE-READ-D2F, heap overflow); G.711 through all entry points in ONE process in permuted orders with the switches toggled on one handle (vlib/g711order.py; "
+    "SfProps/C20Order.lean g711_float_read_order_independent, cached_table_rule_fails).")
+CLAIMED["C18"]["text"] += (" Round 8 (gapd): ONE call longer than the staging buffer with UNIQUE channel maxima behind the first pass (every caller type x 1-6 channels x both encodings, "
+    "vlib/c18long.py; SfProps/C18Long.lean pass_offset_units, mixed_units_differ).")
+
+
 def main():
     checks = []
     for p in PROPS:
